@@ -4,6 +4,7 @@ manifest stays valid and consistent while checks are added)."""
 import json, subprocess
 HOOK_COMMITS = subprocess.run(["git","-C","/repo","log","--format=%H %s"],capture_output=True,text=True).stdout.splitlines()
 hooks = [l.split()[0] for l in HOOK_COMMITS if l.split(' ',1)[1].startswith("verif hooks")]
+PROC_NOTE = "Trusted: the reference interpreter (harness/ref, cross-checked per instruction by C02), the comparison code and the known-finding triggers (predicates on the input; a case matching an active trigger is not judged on the finding's configurations and is counted). Hangs are detected by a budget of simulated loop iterations through the verif build-tag hook, never by wall-clock."
 CHECKS = {
  "C02": dict(level="exploration", ref="4 C02",
    text="Bounded-exhaustive over the boundary lattice (45 mnemonics x 1600 operand pairs x 11 register/alias patterns x 2 context kinds) plus millions of random operand/register/immediate/pc draws, each compared with two independently written oracles. Instruction semantics are pure functions of a few 32-bit operands, so lattice-exhaustive + random search against a reference is the natural decision procedure; 2^64 operand pairs cannot be enumerated, hence exploration.",
@@ -17,6 +18,37 @@ CHECKS = {
    text="Quick: boundary lattice of byte values enumerated completely plus ~2M random patterns; thorough: every one of the 2^32 patterns enumerated in both directions (job 'exhaustive', reported with exhaustive:true in its job entry) — for a pure function of 32 bits complete enumeration is the strongest thing generated search can give and it is affordable.",
    note="Trusted: encoding/binary as the definition of little-endian; the Go compiler. The store/load sentence is checked through sw/lw Run on every quick pattern and on a 1/4096 stride of the exhaustive sweep.",
    technique="bounded-exhaustive enumeration + rapid random patterns against encoding/binary (round-trip both ways)"),
+
+ "C01": dict(level="exploration", ref="4 C01",
+   text="Differential testing of every processor configuration (12 variants x parallelism 1..4 = 33) against an independent sequential reference on programs built concolically from several profiles (register-only, memory, hostile branch shadows, strided walks), with shrinking to minimal programs. The quantifier ranges over all programs x states x configurations, which only sampling can reach; the structural defects of the unchanged tree are recorded as known findings F01-F13 and excluded by input predicates so that the search continues behind them.",
+   note=PROC_NOTE, technique="rapid (concolic program generator) differential testing against a reference interpreter, all 33 configurations"),
+ "C03": dict(level="exploration", ref="4 C03",
+   text="Differential testing on programs whose taken branches and jumps skip hostile shadows (register writes, stores, wild loads, divisions by zero, jumps with link), with branch operands made late by loads so that the shadow progresses for up to ~300 cycles; a reference re-run with the transfer forced to fall through certifies that the shadow would have been visible. Exploration: the space of programs and timings is unbounded.",
+   note=PROC_NOTE, technique="rapid differential testing with hostile-shadow generator and a forced-fall-through metamorphic non-triviality test"),
+ "C04": dict(level="exploration", ref="4 C04",
+   text="Differential testing on short register-pressure programs (2-4 registers, chains, WAW/WAR pairs, load producers, chained forwards), each configuration run three times in one process: results equal to the reference and identical cycle counts (map-iteration order among forwarding candidates shows as a difference between repetitions). Exploration over dispatch interleavings via programs.",
+   note=PROC_NOTE, technique="rapid differential testing with dependence-dense generator, repeated runs per configuration"),
+ "C05": dict(level="exploration", ref="4 C05",
+   text="Differential testing of registers and of the complete memory image after Run returns, on load/store programs over memories larger than every cache (random spread accesses, strided walks with checksums, disjoint-halves programs), on the 29 configurations with a data cache. Exploration: access patterns and eviction sequences are unbounded; an ideal-LRU replay over the reference trace measures how many cases really write, evict and re-read a line.",
+   note=PROC_NOTE, technique="rapid differential testing (registers + full memory) with cache-evicting generators"),
+ "C07": dict(level="exploration", ref="4 C07",
+   text="Outcome classification under a deterministic budget of simulated loop iterations (16 x (instructions+64) x memory latency): well-formed terminating programs must return ok (a recovered Go panic, an error or a budget overrun is a violation); programs that reach a defined error (division by zero, undefined label) must return an error value. The statement is a bounded-liveness one ('within a fixed multiple'), which is what makes it decidable by generated search.",
+   note=PROC_NOTE, technique="rapid generation + hang/panic/error outcome classification with a tick-budget hook"),
+ "C09": dict(level="exploration", ref="4 C09",
+   text="Differential testing on programs whose last instructions before the exit point are controlled (loads missing every cache, stores to untouched lines, back-to-back stores, dependent chains, results with no later reader) and whose exit is ret, fall-through or a branch to a final ret, on the 30 pipelined configurations.",
+   note=PROC_NOTE, technique="rapid differential testing with controlled-tail generator"),
+ "C10": dict(level="exploration", ref="4 C10",
+   text="Differential testing on programs made of conflicting load/store pairs (same byte/word/line, distance 1..12, independent address registers, hit/miss, optionally separated by a taken branch) on the 30 pipelined configurations. At parallelism >= 2 undrained conflicts are the recorded finding F04, so the check judges adjacency at parallelism 1 and on MVP-4/5 and drained distances elsewhere; the evidence counts the split.",
+   note=PROC_NOTE, technique="rapid differential testing with conflicting-pair generator"),
+ "C13": dict(level="exploration", ref="4 C13",
+   text="Model-based testing (rapid histories + bounded-exhaustive enumeration of all histories up to length 5/7 over 4 lines in a 2-line cache) of comp.LRUCache against a list model with full-state comparison after every step, and of the key-value LRU against a recency list. Histories are unbounded, hence exploration; the bounded-exhaustive job is complete within its bound.",
+   note="Trusted: the list models in c13_test.go. Preconditions taken from the callers (insert non-resident aligned bases, write resident addresses).", technique="model-based testing: rapid operation sequences + bounded-exhaustive enumeration against a reference model"),
+ "C14": dict(level="exploration", ref="4 C14",
+   text="Model-based testing of SimpleBus (two-slot latch), BufferedBus (buffer/queue with an explicit cycle counter, capacities 1..4) and Queue: observers compared after every step, every delivery checked for exactly-once / order / latency, final drain; plus bounded-exhaustive enumeration of all action sequences up to length 7/9 for capacities 1..2.",
+   note="Trusted: the bus models in c14_test.go and the usage protocol read off the pipelines (one Connect per cycle, add only while CanAdd).", technique="model-based testing: rapid operation sequences + bounded-exhaustive enumeration against reference models"),
+ "C15": dict(level="exploration", ref="4 C15",
+   text="Model-based testing of the speculative register state of risc.Context (transaction map and rename table, reads through a real instruction so that registerRead is exercised) and of comp.RAT against a ring model, including bounded-exhaustive enumeration of RAT histories up to length 5/6; out-of-order tag arrival is the recorded finding F14 (unit-level face of F03) and is excluded from the value claims only.",
+   note="Trusted: the per-register write-list model and the ring model in c15_test.go.", technique="model-based testing: rapid histories + bounded-exhaustive enumeration against reference models"),
 }
 ALL = ["C%02d"%i for i in range(1,17)]
 m = {
